@@ -21,6 +21,8 @@ unsafe impl parking_lot::lock_api::RawMutex for RawMutex {
         loop {
             if self.0.swap(true, Ordering::Acquire) {
                 // was true -> is locked
+                #[cfg(oxidd_verif)]
+                oxidd_core::verif::spin(oxidd_core::verif::site::CACHE_SPIN);
                 std::hint::spin_loop();
             } else {
                 // was false -> is now locked
